@@ -294,6 +294,19 @@ def run_harness(binp, cases, trace, nodedup=False, timeout=1800, env=None):
     return p.returncode, stats, p.stderr
 
 
+def parse_mismatch(line):
+    """A MISMATCH record printed by a trace specification.  Values with raw control / non-ASCII bytes can make TLC's
+    output unparsable; then the property id, the line and the diagnostic class are still recovered."""
+    try:
+        return json.loads(json.loads(line).split(' ', 1)[1])
+    except Exception:
+        m = re.search(r'\\"id\\":\\"(C\d+)\\",\\"line\\":(\d+)', line)
+        k = re.search(r'\\"info\\":\[\\"([^\\"]*)', line)
+        if not m:
+            raise Infra('unparsable MISMATCH line: ' + line[:500])
+        return {'id': m.group(1), 'line': int(m.group(2)), 'info': [k.group(1) if k else '?', 'details not printable']}
+
+
 def validate_lin(run, wd, trace_module, trace_file, props):
     """Linearizability validation: accepted iff TLC consumes the trace to its end on SOME choice of Lin points.
     A rejection is reported at the high-water line; validation then resumes at the next reset."""
@@ -312,7 +325,7 @@ def validate_lin(run, wd, trace_module, trace_file, props):
         out, rc = tlc(run, wd, trace_module + '.tla', cfgname, workers=1, xmx='3g', timeout=3000)
         for line in out.splitlines():
             if line.startswith('"MISMATCH '):
-                m = json.loads(json.loads(line).split(' ', 1)[1])
+                m = parse_mismatch(line)
                 m['line'] += base
                 if m['info'] and m['info'][0] == 'fault':
                     m['info'] = m['info'][:2] + [str(m['info'][2])[:600]]
@@ -353,10 +366,7 @@ def validate_shard(run, wd, trace_module, trace_file, props, workers=1, deque=Fa
     mism = []
     for line in out.splitlines():
         if line.startswith('"MISMATCH '):
-            try:
-                mism.append(json.loads(json.loads(line).split(' ', 1)[1]))
-            except Exception:
-                raise Infra('unparsable MISMATCH line: ' + line[:500])
+            mism.append(parse_mismatch(line))
     if ('"TRACE-END %d"' % n) not in out:
         raise Infra('trace %s was not consumed to its end by %s (spec or harness error):\n%s' % (trace_file, trace_module, out[-3000:]))
     return mism, n
